@@ -16,7 +16,7 @@ From J5V.lib Require Import Outcome Strcase.
 From J5V.model Require Import Entity EntityClient.
 From J5V.gen Require EntityGen.
 From J5V.proofs Require Import StrcaseProofs EntityProofs EntityGenProofs EntityReadmeProofs EntityClientProofs
-  EntitySpec EntitySpecProofs EntityAcceptProofs.
+  EntitySpec EntitySpecProofs EntityAcceptProofs EntityListProofs.
 Import ListNotations.
 Local Open Scope N_scope.
 
@@ -198,6 +198,32 @@ Theorem C17_full_partial : forall e cs, compile e = Ok cs ->
   C17_spec_core e cs /\ (in_quantifier e = true -> spec_query_paths e cs).
 Proof. exact full_partial. Qed.
 Print Assumptions C17_full_partial.
+
+(* The List method (round 4, after seeded change C17-J): for every declaration in the quantifier that
+   compiles, the path parameters of List are exactly the key-typed keys flagged shardKey - primary
+   or not - in declaration order (spec_list_path, over the component list; no base-path hypothesis),
+   next to the Get / Events clause, and every List parameter is also a Get / Events parameter. *)
+Theorem C17_list_scoped_by_shard_keys : forall e cs, compile e = Ok cs -> in_quantifier e = true ->
+  spec_list_path e cs /\ spec_query_paths e cs
+  /\ (forall n, In n (shard_key_names e) -> In n (path_key_names e)).
+Proof. exact list_scoped_by_shard_keys. Qed.
+Print Assumptions C17_list_scoped_by_shard_keys.
+
+(* a key that is BOTH primary and shard is one of List's parameters (every declaration) *)
+Theorem C17_primary_shard_key_in_list : forall e k, In k (e_keys e) ->
+  key_typed k = true -> key_primary k = true -> k_shard k = true ->
+  In (to_snake (key_name k)) (shard_key_names e).
+Proof. exact primary_shard_key_in_list. Qed.
+Print Assumptions C17_primary_shard_key_in_list.
+
+(* non-vacuity: primary x shard, all four combinations in one declaration of the quantifier *)
+Example C17_key_flags_sample :
+  in_quantifier key_flags_sample = true /\ is_ok (compile key_flags_sample) = true
+  /\ shard_key_names key_flags_sample = [bs "both_id"; bs "shard_id"]
+  /\ path_key_names key_flags_sample = [bs "foo_id"; bs "both_id"; bs "shard_id"]
+  /\ nth 1 (query_paths key_flags_sample) [] = bs "/foo/v1/foo/q/{both_id}/{shard_id}".
+Proof. exact key_flags_sample_ok. Qed.
+Print Assumptions C17_key_flags_sample.
 
 (* NOT a clause of C17 (it is C18's "property names are unique within each object", seen from the
    declaration): State / Event have pairwise distinct JSON properties - after flattening the keys -
